@@ -13,11 +13,15 @@ func c07Use(idx int, argVar, argVal string) (src, want string, mustFail bool) {
 	switch slots {
 	case 1, 3, 4:
 		nm := symLetter("slot") // a is declared by the component; b, c, d are not
-		src += "@slot(\"" + nm + "\")N" + tag + "{{ " + argVar + " }}@end"
+		if vChoice("empty-named-slot", 2) == 1 {
+			src += "@slot(\"" + nm + "\")@end"
+		} else {
+			src += "@slot(\"" + nm + "\")N" + tag + "{{ " + argVar + " }}@end"
+			named = "N" + tag + argVal
+		}
 		if nm != "a" {
 			mustFail = true
 		}
-		named = "N" + tag + argVal
 		if slots == 4 {
 			nm2 := symLetter("slot")
 			src += "@slot(\"" + nm2 + "\")M" + tag + "@end"
@@ -28,8 +32,12 @@ func c07Use(idx int, argVar, argVal string) (src, want string, mustFail bool) {
 	}
 	switch slots {
 	case 2, 3:
-		src += "@slot D" + tag + "@end"
-		def = " D" + tag
+		if vChoice("empty-default-slot", 2) == 1 {
+			src += "@slot@end"
+		} else {
+			src += "@slot D" + tag + "@end"
+			def = " D" + tag
+		}
 	}
 	if slots != 0 {
 		src += "@end"
